@@ -287,3 +287,20 @@ text("c06-flags-positional-swap", "C06", ADT, "        return V3Flags(auth, priv
 text("c06-usm-boots-time-decode", "C06", USM, "            authoritative_engine_boots=seq[1].pythonize(),\n            authoritative_engine_time=seq[2].pythonize(),", "            authoritative_engine_boots=seq[2].pythonize(),\n            authoritative_engine_time=seq[1].pythonize(),")
 text("c06-scoped-decode-index", "C06", ADT, "        engine_id = cast(OctetString, sequence[0])\n        cname = cast(OctetString, sequence[1])", "        engine_id = cast(OctetString, sequence[1])\n        cname = cast(OctetString, sequence[0])")
 text("c06-message-class-selection", "C06", ADT, "            EncryptedMessage\n            if isinstance(message[3], OctetString)\n            else PlainMessage", "            EncryptedMessage\n            if isinstance(message[2], OctetString)\n            else PlainMessage")
+
+# ---------------------------------------------------------------- C10
+patch("rev-D5-reportable", "C10", "33df443-fix__SNMPv3_SET_and_GETBULK_requests_are_marked_reportable.diff")
+text("c10-reportable-response", "C10", V3, "        pdu, (GetRequest, BulkGetRequest, SetRequest, InformRequest)\n", "        pdu, PDU\n")
+text("c10-auth-flag-priv", "C10", V3, "            auth=credentials.auth is not None,\n            priv=credentials.priv is not None,", "            auth=credentials.auth is not None,\n            priv=credentials.auth is not None,")
+text("c10-boots-time-swapped", "C10", USM, "        encrypted_message = apply_encryption(\n            message,\n            credentials,\n            security_name,\n            security_engine_id,\n            engine_boots,\n            engine_time,\n        )", "        encrypted_message = apply_encryption(\n            message,\n            credentials,\n            security_name,\n            security_engine_id,\n            engine_time,\n            engine_boots,\n        )")
+text("c10-auth-before-encrypt", "C10", USM, "        encrypted_message = apply_encryption(\n            message,\n            credentials,\n            security_name,\n            security_engine_id,\n            engine_boots,\n            engine_time,\n        )\n\n        authed_message = apply_authentication(\n            encrypted_message, credentials, security_engine_id\n        )\n\n        return authed_message", "        authed_message = apply_authentication(\n            message, credentials, security_engine_id\n        )\n        encrypted_message = apply_encryption(\n            authed_message,\n            credentials,\n            security_name,\n            security_engine_id,\n            engine_boots,\n            engine_time,\n        )\n\n        return encrypted_message")
+text("c10-digest-over-unreset", "C10", USM, "        auth_result = auth_method.authenticate_outgoing_message(\n            credentials.auth.key,\n            bytes(without_digest),", "        auth_result = auth_method.authenticate_outgoing_message(\n            credentials.auth.key,\n            bytes(unauthed_message),")
+text("c10-wrong-engine-for-timing", "C10", V3, "            self.security_model.set_engine_timing(\n                self.disco.authoritative_engine_id,", "            self.security_model.set_engine_timing(\n                engine_id,")
+text("c10-md5-keylen", "C10", "puresnmp_plugins/auth/md5.py", "hasher = password_to_key(hashlib.md5, 16)", "hasher = password_to_key(hashlib.md5, 20)")
+text("c10-sha1-hmac-md5", "C10", "puresnmp_plugins/auth/sha1.py", "authenticate_outgoing_message = hashbase.for_outgoing(hasher, \"sha1\")", "authenticate_outgoing_message = hashbase.for_outgoing(hasher, \"md5\")")
+text("c10-expansion-no-plus-one", "C10", UTIL, "        tmp = (password * (num_words + 1))[:hash_size]", "        tmp = (password * num_words)[:hash_size]")
+text("c10-expansion-size", "C10", UTIL, "        hash_size = 1024 * 1024\n", "        hash_size = 1000 * 1000\n")
+text("c10-localise-once", "C10", UTIL, "            key[:padding_length] + engine_id + key[:padding_length]", "            key[:padding_length] + engine_id")
+text("c10-user-from-engine", "C10", USM, "        security_name = credentials.username.encode(\"ascii\")\n        engine_config", "        security_name = security_engine_id\n        engine_config")
+text("c10-authentic-refused", "C10", USM, "    if not is_authentic:\n        raise AuthenticationError(\n            \"Incoming message could not be authenticated!\"\n        )", "    raise AuthenticationError(\n        \"Incoming message could not be authenticated!\"\n    )")
+text("c10-s-ceil-idiom", "C10", UTIL, "        num_words = hash_size // len(password)\n        tmp = (password * (num_words + 1))[:hash_size]", "        num_words = -(-hash_size // len(password))\n        tmp = (password * num_words)[:hash_size]", expect="silent")
